@@ -63,6 +63,7 @@ type World struct {
 	Staking  *NativeStaking
 
 	snaps []sdk.Context
+	db    dbm.DB
 }
 
 // NativeStaking writes the declared staking facts of a case into the real staking keeper.
@@ -164,7 +165,8 @@ func newNativeWorld(inject bool) *World {
 	}
 	saodidutil.ReplayKid = func() (string, error) { return lastDid + "#replay", nil }
 	enc := cosmoscmd.MakeEncodingConfig(app.ModuleBasics)
-	a := app.New(log.NewNopLogger(), dbm.NewMemDB(), nil, true, map[int64]bool{}, "", 0, enc, simapp.EmptyAppOptions{}).(*app.App)
+	db := dbm.NewMemDB()
+	a := app.New(log.NewNopLogger(), db, nil, true, map[int64]bool{}, "", 0, enc, simapp.EmptyAppOptions{}).(*app.App)
 
 	if inject {
 		twinHeader.h = sym.Int64("height")
@@ -174,7 +176,7 @@ func newNativeWorld(inject bool) *World {
 	hdr := tmproto.Header{Height: twinHeader.h, Time: sym.Time(twinHeader.bt), AppHash: twinHeader.apphash, ChainID: ChainID}
 	ctx := a.BaseApp.NewUncachedContext(false, hdr).WithEventManager(sdk.NewEventManager())
 
-	w := &World{App: a}
+	w := &World{App: a, db: db}
 	// parameters of the SDK modules the storage modules call into
 	a.AccountKeeper.SetParams(ctx, authtypes.DefaultParams())
 	a.BankKeeper.SetParams(ctx, banktypes.DefaultParams())
@@ -367,6 +369,23 @@ func (w *World) Snapshot() int {
 	cc, _ := w.Ctx.CacheContext()
 	w.Ctx = cc.WithEventManager(w.Ctx.EventManager())
 	return len(w.snaps) - 1
+}
+
+// Rewire: commit what the current context holds and open a second app instance over the same database
+// (a node restarted from its database).
+func (w *World) Rewire() *World {
+	w.App.CommitMultiStore().Commit()
+	enc := cosmoscmd.MakeEncodingConfig(app.ModuleBasics)
+	a := app.New(log.NewNopLogger(), w.db, nil, true, map[int64]bool{}, "", 0, enc, simapp.EmptyAppOptions{}).(*app.App)
+	t := &World{App: a, db: w.db}
+	t.Ctx = a.BaseApp.NewUncachedContext(false, w.Ctx.BlockHeader()).WithEventManager(sdk.NewEventManager())
+	t.Did, t.Order, t.Market, t.Node, t.Model, t.Sao = a.DidKeeper, a.OrderKeeper, a.MarketKeeper, a.NodeKeeper, a.ModelKeeper, a.SaoKeeper
+	t.HookNode = a.NodeKeeper
+	t.Staking = &NativeStaking{w: t, ValDels: map[string][]string{}}
+	t.SaoMsg = saokeeper.NewMsgServerImpl(t.Sao)
+	t.NodeMsg = nodekeeper.NewMsgServerImpl(t.Node)
+	t.DidMsg = didkeeper.NewMsgServerImpl(t.Did)
+	return t
 }
 
 // Rollback: continue from the snapshot state in a fresh cache layer (writes since the snapshot are dropped).
